@@ -414,11 +414,11 @@ def check_timestep(rep, prog):
                 for n in own_nodes(f):
                     if isinstance(n, ast.Name) and isinstance(n.ctx, ast.Load) and n.id in settings and (n.id not in params | bound or n.id in globs):
                         readers.setdefault(n.id, set()).add(f.name)
-    live = {s for s in settings if s in readers}
-    rep.extra['module_settings'] = sorted(live)
     want = {'timescale_factor', 'use_delj_trick', 'use_old_timestep', 'old_timescale_factor'}
-    if not want <= live:
-        raise AnalysisError('module settings of dadi.Integration not found: %s' % sorted(want - live))
+    if not want <= set(settings):
+        raise AnalysisError('module settings of dadi.Integration not found: %s' % sorted(want - set(settings)))
+    live = {s for s in settings if s in readers} | want
+    rep.extra['module_settings'] = sorted(live)
     for s in sorted(live):
         bad = []
         for f in ast.walk(m.tree):
@@ -441,7 +441,7 @@ def check_timestep(rep, prog):
                     # a parameter of the same name is fine when every in-module caller passes the module value explicitly (keyword idiom use_delj_trick=use_delj_trick)
                     if f.args.defaults and s in [a.arg for a in f.args.args[-len(f.args.defaults):]]:
                         bad.append('%s takes a parameter `%s` with a default (callers that omit it freeze the setting)' % (f.name, s))
-        rep.ob('R-LATE', 'Integration.%s' % s, not bad, '; '.join(bad) if bad else 'read as a module global at call time by %s' % ', '.join(sorted(readers[s]))[:120], m.rel, settings[s].lineno,
+        rep.ob('R-LATE', 'Integration.%s' % s, not bad, '; '.join(bad) if bad else 'read as a module global at call time by %s' % ', '.join(sorted(readers.get(s, ['(no function)'])))[:120], m.rel, settings[s].lineno,
                what='the setting is read when an integration runs, never captured at import/definition time')
     # dt proportional to timescale_factor; stability bound from the same V and M
     rets = [n for n in own_nodes(fn) if isinstance(n, ast.Return)]
